@@ -99,6 +99,7 @@ func docSteps(doc *gen.Node) *gen.Node {
 func runC14(c *engine.Ctx) {
 	p := c.Plan
 	w := &signWorld{c: c, features: map[string]bool{}, yamlSafe: true}
+	w.oddEnvNames = c.Plan.Draw(3, "cfg:odd-env-names") == 2
 	kp := pickKey(p)
 	w.rich = p.Draw(3, "cfg:rich") == 2
 	repoURL := []string{"git@github.com:org/repo.git", "https://github.com/org/repo", "r"}[p.Draw(3, "cfg:repo")]
@@ -194,6 +195,34 @@ func runC14(c *engine.Ctx) {
 			if !n.Has("matrix") && p.Draw(2, "c14:matrix-empty") == 1 {
 				n.Set("matrix", gen.Map())
 				changed = true
+			}
+			// the anonymous dimension: `matrix: [..]` == `matrix: {setup: [..]}` == `matrix: {setup: {"": [..]}}`
+			if m := n.Get("matrix"); m != nil && p.Draw(3, "c14:matrix-spelling") == 2 {
+				var vals *gen.Node
+				switch {
+				case m.Kind == gen.KSeq:
+					vals = m
+				case m.Kind == gen.KMap && len(m.Keys) == 1 && m.Keys[0] == "setup" && m.Vals[0].Kind == gen.KSeq:
+					vals = m.Vals[0]
+				case m.Kind == gen.KMap && len(m.Keys) == 1 && m.Keys[0] == "setup" && m.Vals[0].Kind == gen.KMap && len(m.Vals[0].Keys) == 1 && m.Vals[0].Keys[0] == "" && m.Vals[0].Vals[0].Kind == gen.KSeq:
+					vals = m.Vals[0].Vals[0]
+				}
+				if vals != nil {
+					var nm *gen.Node
+					switch p.Draw(3, "c14:matrix-spelling-to") {
+					case 0:
+						nm = vals.Clone()
+					case 1:
+						nm = gen.Map().Set("setup", vals.Clone())
+					default:
+						nm = gen.Map().Set("setup", gen.Map().Set("", vals.Clone()))
+					}
+					if !gen.Same(nm, m) {
+						n.Set("matrix", nm)
+						changed = true
+						c.Probe("anonymous_matrix_respelled")
+					}
+				}
 			}
 			// a plugin's configuration: absent == null == an empty mapping == an empty list
 			if pls := n.Get("plugins"); pls != nil && pls.Kind == gen.KSeq {
@@ -506,6 +535,44 @@ func runC14(c *engine.Ctx) {
 						}
 						pr := pairs[c.Sched.Draw(len(pairs), "c14:typed-pair")]
 						pa, pb := mkp(pr.a), mkp(pr.b)
+						// the same for scalars the library turns into strings (step env values, matrix values): two
+						// different numbers, however large, are two different values
+						if c.Sched.Draw(3, "c14:typed-where") == 2 {
+							where := c.Sched.Draw(2, "c14:typed-pos")
+							mke := func(v *gen.Node) []byte {
+								st := j.step.Clone()
+								st.Del("signature")
+								if where == 0 {
+									st.Set("env", gen.Map().Set("BKSIM_N", v))
+								} else {
+									st.Set("matrix", gen.Seq(gen.Str("plain"), v))
+								}
+								cs := new(pipeline.CommandStep)
+								if cs.UnmarshalJSON(st.ToJSON(nil)) != nil {
+									return nil
+								}
+								pay, err := signOnePayload(c, cs, kp, j.repoURL, penv)
+								if err != nil {
+									return nil
+								}
+								return pay
+							}
+							npairs := []struct {
+								name string
+								a, b *gen.Node
+							}{
+								{"two whole floats beyond 2^63", gen.Float(1.5e19), gen.Float(6.0e21)},
+								{"a whole float beyond 2^63 and its negative", gen.Float(1.5e19), gen.Float(-1.5e19)},
+								{"two integers beyond 2^53", gen.Int(9007199254740993), gen.Int(9007199254740995)},
+								{"1e300 and 1e301", gen.Float(1e300), gen.Float(1e301)},
+								{"null and the text <nil>", gen.Null(), gen.Str("<nil>")},
+								{"null and the text null", gen.Null(), gen.Str("null")},
+								{"true and 1", gen.Bool(true), gen.Int(1)},
+							}
+							pr = npairs[c.Sched.Draw(len(npairs), "c14:typed-npair")]
+							pr.name += []string{" as a step env value", " as a matrix value"}[where]
+							pa, pb = mke(pr.a), mke(pr.b)
+						}
 						if pa != nil && pb != nil {
 							if bytes.Equal(pa, pb) {
 								c.Fail("C14.differ", "look-alike values: "+pr.name, "steps whose plugin configuration holds %s have the SAME payload: %s", pr.name, truncate(string(pa), 600))
